@@ -175,7 +175,12 @@ func runOne(t *testing.T, sched simrt.Schedule, body func(w *simWorld) []Violati
 			viol = body(w)
 		}()
 		for _, p := range w.rt.Panics {
-			viol = append(viol, Violation{Property: "C13", Key: "server-panic " + panicSite(p.Stack),
+			site, harness := panicSite(p.Stack)
+			if harness {
+				viol = append(viol, Violation{Property: "HARNESS", Key: "harness-task-panic", Text: fmt.Sprintf("task %s panicked: %s\n%s", p.Site, p.Value, trimStack(p.Stack))})
+				continue
+			}
+			viol = append(viol, Violation{Property: "C13", Key: "server-panic " + site,
 				Text: fmt.Sprintf("task %s panicked: %s\n%s", p.Site, p.Value, trimStack(p.Stack))})
 		}
 		st.Steps = w.rt.Steps
@@ -190,6 +195,7 @@ func runOne(t *testing.T, sched simrt.Schedule, body func(w *simWorld) []Violati
 		st.StateHash = hashOf(stableDump(disk.Dump()))
 		st.SchedHash = hashOf(sched)
 		if w.rt.KeepTrace {
+			fmt.Fprintln(os.Stderr, "  TASKS", w.liveTasks())
 			for _, l := range w.rt.Trace {
 				fmt.Fprintln(os.Stderr, "  |", l)
 			}
@@ -200,18 +206,46 @@ func runOne(t *testing.T, sched simrt.Schedule, body func(w *simWorld) []Violati
 	return
 }
 
-func panicSite(stack string) string {
-	// first frame inside package main that is not the runtime/simrt
-	for _, l := range strings.Split(stack, "\n") {
-		l = strings.TrimSpace(l)
-		if strings.HasPrefix(l, "main.") && !strings.Contains(l, "zz_sim") {
-			if i := strings.Index(l, "("); i > 0 {
-				return l[:i]
+// panicSite returns the innermost frame of the code under test on a panic stack ("file.go:func") and
+// whether the panic originated in harness code (the innermost non-runtime frame is a zz_sim file).
+func panicSite(stack string) (string, bool) {
+	lines := strings.Split(stack, "\n")
+	first := true
+	for i := 0; i+1 < len(lines); i++ {
+		fn := strings.TrimSpace(lines[i])
+		file := strings.TrimSpace(lines[i+1])
+		if !strings.HasPrefix(lines[i+1], "\t") || strings.HasPrefix(fn, "goroutine ") {
+			continue
+		}
+		if strings.Contains(file, "/runtime/") || strings.Contains(file, "runtime/debug") || strings.Contains(file, "/simrt/") || strings.HasPrefix(fn, "panic(") {
+			continue
+		}
+		if strings.Contains(file, "zz_sim_") {
+			if first {
+				return "harness", true
 			}
-			return l
+			continue
+		}
+		first = false
+		if strings.Contains(file, "/server/") {
+			f := file
+			if j := strings.LastIndex(f, "/"); j >= 0 {
+				f = f[j+1:]
+			}
+			if j := strings.Index(f, ":"); j >= 0 {
+				f = f[:j]
+			}
+			if j := strings.LastIndex(fn, "("); j > 0 {
+				fn = fn[:j]
+			}
+			if j := strings.LastIndex(fn, "/"); j >= 0 {
+				fn = fn[j+1:]
+			}
+			fn = strings.TrimPrefix(fn, "server.")
+			return f + ":" + fn, false
 		}
 	}
-	return "unknown"
+	return "unknown", false
 }
 
 func trimStack(s string) string {
